@@ -1,12 +1,8 @@
 (** Types of the table values that tools/fragments_select.py extracts from registry.py (C17). *)
-From CM Require Export Base.Str.
+From CM Require Export Base.Str Base.TableTypes.
 
 (** How [match_codemods] turns a [*] pattern into a test on a codemod id. *)
 Inductive matcher_kind :=
 | PrefixRegex   (* re.compile(name.replace("*", ".*")).match(id): anchored at the start only, metacharacters live *)
 | FullGlob.     (* _wildcard_pattern(name).fullmatch(id): literal parts escaped, whole id must match *)
 
-(** load_registered_codemods: order in which the codemod collections are loaded. *)
-Inductive iter_form :=
-| OverSet          (* for entry_point in set(...): order depends on the hash seed *)
-| Deterministic.   (* for entry_point in dict.fromkeys(...): entry-point order *)
